@@ -18,8 +18,8 @@ CONSTANTS MAXCUTS,   \* max number of cuts per scenario
           TAILS      \* tail kinds for the size-limit family
 
 S2(a, ab, b, bb) == [msgs |-> <<a, b>>, be |-> <<ab, bb>>]
-StreamsQuick == {S2("sig0", FALSE, "call1", FALSE), S2("call1", FALSE, "sig2", TRUE), S2("sig2", TRUE, "sigs", FALSE)}
-StreamsThorough == StreamsQuick \cup {S2("call1", TRUE, "call1", TRUE), S2("sigs", FALSE, "sig2", FALSE), S2("sig0", FALSE, "sig0", TRUE)}
+StreamsQuick == {S2("sig0", FALSE, "call1", FALSE), S2("sig2", TRUE, "sigs", FALSE)}
+StreamsThorough == StreamsQuick \cup {S2("call1", FALSE, "sig2", TRUE), S2("call1", TRUE, "call1", TRUE), S2("sigs", FALSE, "sig2", FALSE), S2("sig0", FALSE, "sig0", TRUE)}
 TailsAll == {"big_body_le", "big_body_be", "big_fields", "max_u32", "limit_plus1", "limit_plus1_be"}
 
 Tags == {"h", "x", "f", "b", "i", "e"}
